@@ -34,6 +34,8 @@ def tails(t, nlive, kinds=('rm', 'rep', 'fwd', 'str', 'set')):
         for k in range(nlive):
             for s in alpha + [foreign_for(t)]:
                 yield ['rep', k, s]
+    if 'repa' in kinds:
+        for k in range(nlive):
             for s in alpha:
                 yield ['repa', k, s]          # predicate matching every child + index: the index selects what is replaced
     if 'fwd' in kinds:
@@ -72,7 +74,7 @@ def core_mixed(t, nadds, kinds=('rm', 'rep', 'fwd', 'str', 'set')):
 
 def n_core_mixed(t, nadds):
     a = len(ref.DFAS[t].alphabet)
-    return sum((a ** k) * (k + k * (2 * a + 1) + 4 * a + 2 + 2 * a) for k in range(nadds + 1))
+    return sum((a ** k) * (k + k * (a + 1) + 4 * a + 2 + 2 * a) for k in range(nadds + 1))
 
 
 def _pick_symbol(rnd, alpha, used, p_again):
